@@ -17,6 +17,7 @@ import (
 	"path/filepath"
 	"regexp"
 	"strings"
+	"time"
 
 	. "verifharness/hlib"
 
@@ -672,11 +673,43 @@ func streamC01(c *Ctx) {
 			runOn(ms, "mut", append(append([]any{}, mins...), pickInputs(1, ext)...), inputs)
 		}
 	}
-	// (b)
+	// (b) random programs: of 6 candidate inputs keep the 2 on which the program gets furthest (most
+	// outputs before an error), plus sometimes a random value, so that runs are not all early type errors
 	nrand := c.N
 	for i := 0; i < nrand; i++ {
 		src := randomProgram(r.Fork())
-		ins := pickInputs(2, ext)
+		if dangerous(src) {
+			c.Count("filtered-dangerous")
+			continue
+		}
+		cands := pickInputs(6, ext)
+		if p, ok := prepare(src); ok {
+			score := func(in any) int {
+				oc := runProg(p, in, someInputs, 50*time.Millisecond)
+				if oc.dropped != "" {
+					return -1
+				}
+				n := 2 * len(oc.outs)
+				if !strings.HasPrefix(oc.ending, "(err") {
+					n++
+				}
+				return n
+			}
+			best := []int{0, 1}
+			sc := make([]int, len(cands))
+			for j := range cands {
+				sc[j] = score(cands[j])
+			}
+			for j := range cands {
+				if sc[j] > sc[best[0]] {
+					best[1], best[0] = best[0], j
+				} else if j != best[0] && sc[j] > sc[best[1]] {
+					best[1] = j
+				}
+			}
+			cands = []any{cands[best[0]], cands[best[1]]}
+		}
+		ins := cands[:2]
 		if r.Chance(1, 3) {
 			ins = append(ins, randValue(r, 3))
 		}
